@@ -94,19 +94,20 @@ type Divergence struct {
 
 // Profile tunes the generator towards a property.
 type Profile struct {
-	Name        string
-	Steps       int
-	HookEvery   int // run the structural hook every N steps (0 = only at the end)
-	Weights     map[string]int
-	MaxWorkers  int
-	DedupHeavy  bool
-	Stickiness  bool
-	Routing     bool
-	LeakPhase   bool
-	Nested      bool
-	FewSteps    bool
-	QuietTimers bool
-	RetryHeavy  bool
+	Name         string
+	Steps        int
+	HookEvery    int // run the structural hook every N steps (0 = only at the end)
+	Weights      map[string]int
+	MaxWorkers   int
+	DedupHeavy   bool
+	Stickiness   bool
+	Routing      bool
+	LeakPhase    bool
+	Nested       bool
+	FewSteps     bool
+	QuietTimers  bool
+	RetryHeavy   bool
+	LongAdvances bool
 }
 
 type streamPair struct {
@@ -270,7 +271,7 @@ func GenWorld(rng *rand.Rand, p Profile) *World {
 		wd := WorkerDef{ID: map[string]string{"host": fmt.Sprintf("h%d", i/2), "thread": fmt.Sprintf("%d", i%2)}}
 		if i < len(slots) && rng.IntN(6) > 0 {
 			wd.Prefix, wd.Props, wd.SizeClass = slots[i].pq.Prefix, slots[i].pq.Props, slots[i].sc
-		} else if rng.IntN(5) > 0 || !p.Routing {
+		} else if (p.Routing && rng.IntN(5) > 0) || (!p.Routing && rng.IntN(6) > 0) {
 			pq := pick(rng, w.PQs)
 			wd.Prefix, wd.Props = pq.Prefix, pq.Props
 			wd.SizeClass = pick(rng, pq.SizeClasses)
@@ -309,6 +310,12 @@ func GenWorld(rng *rand.Rand, p Profile) *World {
 			} else {
 				inst = inst + "/" + pick(rng, []string{"zz", "c"})
 			}
+		}
+		if rng.IntN(4) == 0 {
+			// Target the queue of some worker (possibly one that only
+			// exists because that worker created it).
+			wd := pick(rng, w.Workers)
+			inst, props = wd.Prefix, wd.Props
 		}
 		ad := ActionDef{Tag: fmt.Sprintf("act%d", i), Instance: inst, Props: props, DoNotCache: rng.IntN(6) == 0, InCAS: rng.IntN(25) != 0}
 		if p.DedupHeavy {
@@ -1484,8 +1491,8 @@ func (c *Case) genStep() (Step, bool) {
 			if c.P.Stickiness {
 				d = pick(rng, []time.Duration{time.Second, time.Second, 2 * time.Second, 3 * time.Second, 5 * time.Second, 9 * time.Second, 20 * time.Second})
 			}
-			if rng.IntN(30) == 0 {
-				d = 400 * time.Second
+			if rng.IntN(30) == 0 || (c.P.LongAdvances && rng.IntN(5) == 0) {
+				d = pick(rng, []time.Duration{100 * time.Second, 400 * time.Second, 400 * time.Second})
 			}
 			return Step{K: "adv", D: d}, true
 		case "poke":
